@@ -7,28 +7,31 @@ From SF Require Import Base.Str Base.Dec Tags.Model Gather.Model Gather.Proofs L
 Import ListNotations.
 Local Open Scope string_scope. Local Open Scope list_scope.
 
-Definition klstep (polf : nat -> policy) (valf : nat -> tag -> string) (j : nat) := G.rstep (polf j) (valf j).
-Definition kreal (polf : nat -> policy) (valf : nat -> tag -> string) (cont : tag -> bool) (insts : list tag) (k m : nat) :=
-  kreach G.RS (klstep polf valf) (fun _ => G.rinit) cont insts k m.
+Definition klstep (polf : nat -> policy) (valf : nat -> tag -> string) (tstf : nat -> status) (j : nat) :=
+  G.rstep (polf j) (valf j) (tstf j).
+Definition kreal (polf : nat -> policy) (valf : nat -> tag -> string) (tstf : nat -> status) (cont : tag -> bool)
+  (insts : list tag) (k m : nat) :=
+  kreach G.RS (klstep polf valf tstf) (fun _ => G.rinit) cont insts k m.
 (* number of iterations of instance p, read off the combinator's counters *)
 Definition kiter (s : knet G.RS) (p : tag) : nat := match tget p (nimap s) with Some n => N.to_nat n | None => 0 end.
 
 Theorem loop_network_k :
-  forall (polf : nat -> policy) (valf : nat -> tag -> string) (cont : tag -> bool) (insts : list tag) (k m d : nat),
+  forall (polf : nat -> policy) (valf : nat -> tag -> string) (tstf : nat -> status) (cont : tag -> bool)
+         (insts : list tag) (k m d : nat),
   1 <= k -> 1 <= d -> (forall p, In p insts -> length p = d) -> NoDup insts ->
-  forall s, kreal polf valf cont insts k m s ->
+  forall s, kreal polf valf tstf cont insts k m s ->
   forall j, j < m ->
   (nlgot s j = false -> lfinal (fst (nls s j)) = None) /\
   (nlgot s j = true ->
      (forall p, In p insts -> (forall i, i < kiter s p -> cont (G.itag p i) = true) /\ cont (G.itag p (kiter s p)) = false) /\
      Permutation (lout (fst (nls s j)))
                  (map (fun p => lexpected (polf j) (p, G.iters (valf j) p (kiter s p))) insts) /\
-     lfinal (fst (nls s j)) = Some (match insts with [] => Skipped | _ => Completed end)).
+     lfinal (fst (nls s j)) = Some (get_status (reduce_statuses [Skipped; tstf j]) (match insts with [] => true | _ => false end))).
 Proof.
-  intros polf valf cont insts k m d Hk Hd Hi Hnd s R j Hj.
+  intros polf valf tstf cont insts k m d Hk Hd Hi Hnd s R j Hj.
   assert (H0 : 0 < k) by lia.
-  pose proof (sim_reach G.RS (klstep polf valf) (fun _ => G.rinit) cont insts k m 0 j H0 Hj s R) as GR.
-  exact (G.loop_network (polf j) (valf j) cont insts d Hd Hi Hnd _ GR).
+  pose proof (sim_reach G.RS (klstep polf valf tstf) (fun _ => G.rinit) cont insts k m 0 j H0 Hj s R) as GR.
+  exact (G.loop_network (polf j) (valf j) (tstf j) cont insts d Hd Hi Hnd _ GR).
 Qed.
 
 (* ---- a concrete run (non-vacuity): two input variables, two outputs, one instance [0], zero iterations ---- *)
@@ -42,6 +45,7 @@ Proof. intros R H. induction H; auto. apply IHksteps. eapply kreach_step; eauto.
 Definition ex_polf (j : nat) : policy := match j with 0 => OutAll | _ => OutLast end.
 Definition ex_valf (j : nat) (t : tag) : string := render t.
 Definition ex_cont0 (t : tag) : bool := false.
+Definition ex_tstf (j : nat) : status := Skipped.       (* what a zero-iteration loop delivers on the real engine *)
 
 Ltac fin := try reflexivity; try lia.
 Ltac kI c n := eapply ksteps_cons; [eapply c with (i := n); fin|]; cbn.
@@ -49,8 +53,9 @@ Ltac kJ c n := eapply ksteps_cons; [eapply c with (j := n); fin|]; cbn.
 Ltac kW := eapply ksteps_cons; [eapply K_W; fin|]; cbn.
 
 Lemma ex_k_run :
-  exists s, kreal ex_polf ex_valf ex_cont0 [[0%N]] 2 2 s /\ nlgot s 0 = true /\ nlgot s 1 = true /\
-            lout (fst (nls s 0)) = [ListTok "0" []] /\ lout (fst (nls s 1)) = [Tok "0" "null"].
+  exists s, kreal ex_polf ex_valf ex_tstf ex_cont0 [[0%N]] 2 2 s /\ nlgot s 0 = true /\ nlgot s 1 = true /\
+            lout (fst (nls s 0)) = [ListTok "0" []] /\ lout (fst (nls s 1)) = [Tok "0" "null"] /\
+            lfinal (fst (nls s 0)) = Some Skipped.
 Proof.
   eexists. split.
   - eapply kreach_steps; [apply kreach_init|].
